@@ -180,7 +180,7 @@ def run(ctx):
     for _ in range(40 if q else 600):
         w, h = rng.randint(8, 40), rng.randint(8, 30)
         wild = rng.random() < 0.5             # wild coefficients: mostly rejected by the area limit; tame: reaches the renderer
-        far = rng.random() < 0.3              # control points beyond the position limit (rejected while parsing)
+        far = rng.random() < 0.1              # control points beyond the position limit, a short curve (small area estimate)
         img = {"w": w, "h": h, "bits": 8, "gray": rng.random() < 0.15, "buf16": True, "orient": 1, "anim": None, "ecs": []}
         nch = 1 if img["gray"] else 3
         f = {"gshift": 1, "is_last": True, "tr": [], "pals": [], "tree": ("L", 0, 5, 0, 1), "wp": None,
@@ -194,10 +194,15 @@ def run(ctx):
                 for c in range(3):
                     coeffs[32 * c] = rng.choice([0, 1, -1, 3, 40, -40, 2000])
                 coeffs[96] = rng.choice([0, 1, -1, 2, 5, 300, -300])
-            lim = BIGS if far else BIGS[:9]
+            lim = BIGS[:9]
             deltas = [(rng.choice(lim) if rng.random() < 0.5 else rng.randint(-9, 9) or 1,
                        rng.choice(lim) if rng.random() < 0.5 else rng.randint(-9, 9)) for _ in range(rng.randint(0, 5))]
             start = (abs(rng.choice(lim)), abs(rng.choice(lim))) if i == 0 else (rng.choice(lim), rng.choice(lim))
+            if far:
+                start = (2 ** rng.randint(24, 30), rng.choice([0, 5, 2 ** rng.randint(24, 30)]))
+                deltas = [(rng.randint(100, 3000), rng.randint(-50, 50))] + [(rng.randint(-9, 9), rng.randint(-9, 9)) for _ in range(rng.randint(0, 2))]
+                if i > 0:
+                    start = (rng.randint(0, 30), rng.randint(0, 30))
             sp.append({"start": start, "deltas": deltas, "coeffs": coeffs})
         f["splines"] = (rng.choice([0, -7, -8, -9, -100, 7, 100, 2 ** 31 - 1, -2 ** 31 + 1] if wild else [0, -7, -8, -9, 7, 100]), sp)
         if rng.random() < 0.4:
